@@ -8,57 +8,58 @@ import (
 
 // Profile selects which descriptor features a lab switches on (DESIGN §2.1 feature profiles).
 type Profile struct {
-	Name               string
-	MaxControllers     int
-	MaxMethods         int
-	MultiPkg           bool
-	MultiFile          bool
-	Hidden             bool
-	Deprecated         bool
-	NonEndpoint        bool // methods without @Method / with empty route, methods of unrelated types
-	Security           bool
-	DefaultSecP        float64
-	ParamIn            []string
-	ParamTypeLevel     int  // 0 strings, 1 all primitives, 2 + enums/aliases/pointers/query slices
-	Validators         bool // validators on parameters
-	FieldValidators    bool
-	Models             int // 0 none, 1 simple, 2 rich
-	CustomErrors       bool
-	Responses          bool
-	RouteStyle         string // clean | slashy
-	CtlRouteParams     bool
-	VerbPathReuse      bool
-	SameNameCtls       bool
-	Maps               bool
-	UsageValidators    bool // validators on $ref-typed fields/params
-	HiddenJSON         bool // json:"-" and unexported fields
-	Descriptions       bool
-	WireNames          bool
-	ValueReceivers     bool
-	CtxParams          bool
-	EnforceP           float64
-	AnyBytesTime       bool // any / []byte / time.Time in fields and results
-	NestedSlices       bool
-	MutualRecursion    bool
-	AllRules           bool // draw validators from every rule either converter understands (C11)
-	BareControllers    bool // controllers without @Route / @Tag / any doc comment at all
-	RuntimeValidators  bool // only validators whose run-time semantics the router labs model
-	HostileNames       bool // parameter names that stress identifier concatenation in the templates (C09)
-	CompileHostile     bool // value shapes the acceptance survey found to break compilation (C09 only)
-	TemplateTwins      bool // same path shape under another verb with differently named {variables} (spec profiles only)
-	SameNameTypes      bool // an enum twin with the same type name in another package, used under the same parameter name
-	LookalikeTypes     bool // user types named like the types gleece special-cases (context.Context, time.Time) in packages named alike
-	GroupedControllers bool // controllers declared inside a documented `type ( ... )` block
-	ControllerFields   bool // package-qualified fields in front of the embedded GleeceController
-	NestedBetween      bool // a globbed nested package whose directory sorts between two files of one controller
-	ErrorEmbeds        bool // custom error models that embed another struct and list `error` last
-	LowerVerbs         bool // now and then a verb in lower case (unsupported: the project has to be rejected)
-	CrossCtlSameRoute  bool // two controllers with different prefixes declare the same verb + method-level route
-	GroupedParams      bool // some signatures group consecutive same-typed parameters (a, b, c string)
-	ErrCodeIsSuccess   bool // an @ErrorResponse whose code equals the route's @Response code (accepted by the validator)
-	RepeatedErrCodes   bool // a repeated @ErrorResponse code (a warning) in front of further codes
-	DashedWireNames    bool // wire names with '-' and '_' for path/query parameters
-	OAuthSchemes       bool // oauth2 (1-4 flows, differing scopes) and openIdConnect schemes in the configuration
+	Name                    string
+	MaxControllers          int
+	MaxMethods              int
+	MultiPkg                bool
+	MultiFile               bool
+	Hidden                  bool
+	Deprecated              bool
+	NonEndpoint             bool // methods without @Method / with empty route, methods of unrelated types
+	Security                bool
+	DefaultSecP             float64
+	ParamIn                 []string
+	ParamTypeLevel          int  // 0 strings, 1 all primitives, 2 + enums/aliases/pointers/query slices
+	Validators              bool // validators on parameters
+	FieldValidators         bool
+	Models                  int // 0 none, 1 simple, 2 rich
+	CustomErrors            bool
+	Responses               bool
+	RouteStyle              string // clean | slashy
+	CtlRouteParams          bool
+	VerbPathReuse           bool
+	SameNameCtls            bool
+	Maps                    bool
+	UsageValidators         bool // validators on $ref-typed fields/params
+	HiddenJSON              bool // json:"-" and unexported fields
+	Descriptions            bool
+	WireNames               bool
+	ValueReceivers          bool
+	CtxParams               bool
+	EnforceP                float64
+	AnyBytesTime            bool // any / []byte / time.Time in fields and results
+	NestedSlices            bool
+	MutualRecursion         bool
+	AllRules                bool // draw validators from every rule either converter understands (C11)
+	BareControllers         bool // controllers without @Route / @Tag / any doc comment at all
+	RuntimeValidators       bool // only validators whose run-time semantics the router labs model
+	HostileNames            bool // parameter names that stress identifier concatenation in the templates (C09)
+	CompileHostile          bool // value shapes the acceptance survey found to break compilation (C09 only)
+	TemplateTwins           bool // same path shape under another verb with differently named {variables} (spec profiles only)
+	SameNameTypes           bool // an enum twin with the same type name in another package, used under the same parameter name
+	LookalikeTypes          bool // user types named like the types gleece special-cases (context.Context, time.Time) in packages named alike
+	GroupedControllers      bool // controllers declared inside a documented `type ( ... )` block
+	ControllerFields        bool // package-qualified fields in front of the embedded GleeceController
+	NestedBetween           bool // a globbed nested package whose directory sorts between two files of one controller
+	ErrorEmbeds             bool // custom error models that embed another struct and list `error` last
+	SameWireAcrossLocations bool // a query/header parameter reusing a path parameter's wire name
+	LowerVerbs              bool // now and then a verb in lower case (unsupported: the project has to be rejected)
+	CrossCtlSameRoute       bool // two controllers with different prefixes declare the same verb + method-level route
+	GroupedParams           bool // some signatures group consecutive same-typed parameters (a, b, c string)
+	ErrCodeIsSuccess        bool // an @ErrorResponse whose code equals the route's @Response code (accepted by the validator)
+	RepeatedErrCodes        bool // a repeated @ErrorResponse code (a warning) in front of further codes
+	DashedWireNames         bool // wire names with '-' and '_' for path/query parameters
+	OAuthSchemes            bool // oauth2 (1-4 flows, differing scopes) and openIdConnect schemes in the configuration
 }
 
 var verbs = []string{"GET", "POST", "PUT", "DELETE", "PATCH"}
@@ -677,7 +678,11 @@ func (g *gen) genTypes() {
 			if e.Name[0] >= 'a' && e.Name[0] <= 'z' && e.Pkg != s.Pkg {
 				continue
 			}
-			s.Fields = append(s.Fields, Field{Embedded: true, Type: Named(e.Pkg, e.Name)})
+			ef := Field{Embedded: true, Type: Named(e.Pkg, e.Name)}
+			if prof.FieldValidators && g.chance(0.4) {
+				ef.Validate = "required" // on an embedding: still not a property of its own
+			}
+			s.Fields = append(s.Fields, ef)
 			usedF[e.Name] = true
 		}
 		for f := 0; f < nf; f++ {
@@ -707,6 +712,11 @@ func (g *gen) genTypes() {
 				fld.Descr = g.pick(descrPool)
 			}
 			s.Fields = append(s.Fields, fld)
+		}
+		if prof.Models >= 2 && g.chance(0.25) && !usedF["Lat"] && !usedF["Lng"] && !usedJ["Lat"] && !usedJ["Lng"] {
+			// one declaration, several names: Lat, Lng float64 (no tags, so the wire names are the Go names)
+			s.Fields = append(s.Fields, Field{GoName: "Lat", Type: Prim("float64"), GroupWithNext: true}, Field{GoName: "Lng", Type: Prim("float64")})
+			g.p.SetFeature("multi-name-struct-field")
 		}
 		// hidden fields anywhere in the struct: in front of, between and behind the visible ones
 		insertAt := func(f Field) {
@@ -795,7 +805,7 @@ func isIntPrim(n string) bool   { return strings.HasPrefix(n, "int") || strings.
 func isFloatPrim(n string) bool { return strings.HasPrefix(n, "float") }
 
 var allRulePool = []string{"email", "uuid", "ip", "ipv4", "ipv6", "hostname", "date", "datetime", "gt=3", "gte=-2", "lt=99", "lte=100.5", "min=1", "max=64", "len=8",
-	"pattern=^[a-z]+$", "minItems=1", "maxItems=9", "uniqueItems=true", "enum=a|b|c", "oneof=x y z", "oneof=1 2 3", "required", "gt=0.5", "min=0", "max=0", "lte=0", "gte=0", "lt=0", "gt=0", "len=0", "maxItems=0", "minItems=0"}
+	"pattern=^[a-z]+$", "pattern=^[a-z]+=[a-z0-9]+$", "oneof=env=prod env=dev", "minItems=1", "maxItems=9", "uniqueItems=true", "enum=a|b|c", "oneof=x y z", "oneof=1 2 3", "required", "gt=0.5", "min=0", "max=0", "lte=0", "gte=0", "lt=0", "gt=0", "len=0", "maxItems=0", "minItems=0"}
 
 // richValidator draws 1-3 well-formed rules from the full catalogue, applicable to the type or not.
 func (g *gen) richValidator() string {
@@ -1319,6 +1329,20 @@ func (g *gen) genMethod(c *Controller, idx int) Method {
 		}
 		pr.Descr = g.descr()
 		m.Params = append(m.Params, pr)
+	}
+	if prof.SameWireAcrossLocations && g.chance(0.2) {
+		// a query / header parameter that reuses the wire name of a path parameter (unique per location)
+		for _, pp := range m.Params {
+			if pp.In == "path" && pp.GoName != "tenant" {
+				in := g.pick([]string{"query", "header"})
+				if allow[in] && !usedWire[in+":"+pp.WireName()] {
+					usedWire[in+":"+pp.WireName()] = true
+					m.Params = append(m.Params, Param{GoName: newName(), In: in, Type: Prim("string"), Wire: pp.WireName()})
+					g.p.SetFeature("wire-name-shared-by-two-locations")
+				}
+				break
+			}
+		}
 	}
 	canBody := false
 	for _, v := range bodyVerbs {
